@@ -1,0 +1,19 @@
+//go:build verif
+
+package controller
+
+import "github.com/markusressel/fan2go/internal/control_loop"
+
+// Lemma functions for /verif/govc (compiled only with -tags verif, never called).
+
+// lemmaRescale carries arithmetic facts about the request formula of calculateTargetPwm
+// (rescaleOf in the contracts): end points, range, monotonicity. The body is empty on purpose.
+func lemmaRescale(v1 int, v2 int, lo int, hi int) {
+}
+
+// lemmaLimitedSteady: direct algorithm with maxPwmChangePerCycle; the last request (what the controller
+// feeds back as "current") already is the steady request of the unlimited algorithm for curve value c.
+// The returned value is what the loop hands to the rescaling step of the next cycle.
+func lemmaLimitedSteady(l *control_loop.DirectControlLoop, c int, current int, lo int, hi int) int {
+	return l.Cycle(c, current)
+}
